@@ -121,8 +121,11 @@ def group_text(E, letter, name, z_at=None):
     n = S.ARITY[up]
     if up == "A":
         rx, ry, rot, x, y = [E.real(name + k, NUM) for k in ("rx", "ry", "rot", "x", "y")]
-        fa = E.choice(name + "large", [0, 1])
-        fs = E.choice(name + "sweep", [0, 1])
+        if name in ("g0", "g"):
+            fa = E.choice(name + "large", [0, 1])
+            fs = E.choice(name + "sweep", [0, 1])
+        else:
+            fa, fs = 1, 0      # the flag table is exercised on the first group; repetition re-uses the same code
         if z_at is not None:
             return "%s %s %s " + "%d %d z" % (fa, fs), [rx, ry, rot], [rx, ry, rot, fa, fs, None, None]
         return "%s %s %s " + "%d%d" % (fa, fs) + "%s %s", [rx, ry, rot, x, y], [rx, ry, rot, fa, fs, x, y]
